@@ -469,15 +469,26 @@ def trso_line10(
     :returns: A modified TRSOQuery
     """
     ordering = list(query.graphs[query.domain].topological_sort())
-    expressions = []
+    current = query.expression
+    while isinstance(current, Sum):
+        current = current.expression
+    is_plain_joint = isinstance(current, PopulationProbability) and not current.parents
+    expressions: list[Expression] = []
     for node in district:
         i = ordering.index(node)
         pre_node = set(ordering[:i])
-        # note tikka splits this into two expressions that when taken together equal pre_node
-        distribution = Distribution.safe(node | pre_node)
-        expressions.append(
-            PopulationProbability(population=query.domain, distribution=distribution)
-        )
+        if is_plain_joint:
+            # note tikka splits this into two expressions that when taken together equal pre_node
+            distribution = Distribution.safe(node | pre_node)
+            expressions.append(
+                PopulationProbability(population=query.domain, distribution=distribution)
+            )
+        else:
+            # the current distribution is no longer the domain's joint, so take the conditional from it
+            later = set(ordering[i + 1 :])
+            expressions.append(
+                Sum.safe(query.expression, later) / Sum.safe(query.expression, later | {node})
+            )
 
     new_query = deepcopy(query)
     new_query.target_interventions = query.target_interventions.intersection(district)
